@@ -247,7 +247,11 @@ class StreamSession:
         _MAX_DRAIN = 10_000
         with contextlib.suppress(StopIteration, RpcError, pa.ArrowInvalid, OSError):
             for _ in range(_MAX_DRAIN):
-                _read_batch_with_log_check(self._output_reader, self._on_log, self._external_config, shm=self._shm)
+                # Drained batches are dropped, but a batch that arrived through shared
+                # memory still owns its region: release it or it is never freed.
+                _read_batch_with_log_check(
+                    self._output_reader, self._on_log, self._external_config, shm=self._shm
+                ).release()
 
     def cancel(self) -> None:
         """Signal the server to stop processing and discard pending work.
@@ -285,7 +289,11 @@ class StreamSession:
         _MAX_DRAIN = 10_000
         with contextlib.suppress(StopIteration, RpcError, pa.ArrowInvalid, OSError):
             for _ in range(_MAX_DRAIN):
-                _read_batch_with_log_check(self._output_reader, self._on_log, self._external_config, shm=self._shm)
+                # Drained batches are dropped, but a batch that arrived through shared
+                # memory still owns its region: release it or it is never freed.
+                _read_batch_with_log_check(
+                    self._output_reader, self._on_log, self._external_config, shm=self._shm
+                ).release()
 
     def __enter__(self) -> StreamSession:
         """Enter context manager."""
